@@ -126,8 +126,11 @@ Definition wf_cfg (c : cfg) : bool :=
   ((g_place c =? P_RETAINED) || (g_place c =? P_OFFLINE) || (g_place c =? P_HELD))%N.
 
 (* ---------- engine ----------
-   case = (smax interval ver5 place created storedExpiry (event ...))
-   event = (1 h present) | (2 t0 t1 delivered mei) *)
+   case = (smax interval ver5 subver5 place created storedExpiry (event ...))
+   event = (1 h present) | (2 t0 t1 delivered mei)
+   ver5 is the PUBLISHER's version (it, with the interval, decides whether the message has an expiry of
+   its own, whoever receives it); subver5 = the receiver is an MQTT 5 client: only then is there a
+   Message Expiry Interval on the wire to check *)
 
 Definition as_oev (v : val) : option oev :=
   match v with
@@ -138,16 +141,16 @@ Definition as_oev (v : val) : option oev :=
   end.
 
 (* replay the model on the observed events; a delivery may have happened at any second of [t0, t1] *)
-Fixpoint agrees (c : cfg) (present : bool) (os : list oev) : bool :=
+Fixpoint agrees (sub5 : bool) (c : cfg) (present : bool) (os : list oev) : bool :=
   match os with
   | [] => true
   | OHouse h p :: r =>
-      let '(p', _) := step c present (EHouse h) in Bool.eqb p p' && agrees c p' r
+      let '(p', _) := step c present (EHouse h) in Bool.eqb p p' && agrees sub5 c p' r
   | ODeliver t0 t1 d mei :: r =>
       let '(p', _) := step c present (EDeliver t0) in
       Bool.eqb d present &&
-      (negb d || (mei =? write_interval c (stored_expiry c) t0) || (mei =? write_interval c (stored_expiry c) t1)) &&
-      agrees c p' r
+      (negb d || negb sub5 || (mei =? write_interval c (stored_expiry c) t0) || (mei =? write_interval c (stored_expiry c) t1)) &&
+      agrees sub5 c p' r
   end.
 
 (* a delivery that breaks the interval clause exactly as the finding describes *)
@@ -165,21 +168,21 @@ Definition place_tag (p : N) : bytes :=
 (* ENGINE expiry Session.Expiry.expiry_engine *)
 Definition expiry_engine (v : val) : val :=
   match v with
-  | VL [smax; VN interval; ver5; VN place; created; stored; VL evs] =>
-      match as_Z smax, as_bool ver5, as_Z created, as_Z stored, map_opt as_oev evs with
-      | Some m, Some v5, Some cr, Some st, Some os =>
+  | VL [smax; VN interval; ver5; sub5v; VN place; created; stored; VL evs] =>
+      match as_Z smax, as_bool ver5, as_bool sub5v, as_Z created, as_Z stored, map_opt as_oev evs with
+      | Some m, Some v5, Some sub5, Some cr, Some st, Some os =>
           let c := {| g_smax := m; g_interval := Z.of_N interval; g_ver5 := v5; g_place := place; g_created := cr |} in
           if negb (wf_cfg c) then bad_case else
-          let tg := place_tag place in
+          let tg := place_tag place ++ (if v5 then tag "/pub5" else tag "/pub3") ++ (if sub5 then tag "-sub5" else tag "-sub3") in
           let nontriv := expires c in
           if negb (late_ok c false os) then verdict 1 tg nontriv [VB (tag "delivered-after-expiry-housekeeping")]
-          else if negb (interval_ok c os) then
-            if interval_fail_is_kf c os && (st =? stored_expiry c) && agrees c true os
+          else if sub5 && negb (interval_ok c os) then
+            if interval_fail_is_kf c os && (st =? stored_expiry c) && agrees sub5 c true os
             then verdict 3 tg nontriv [VB (tag "KF_C25_interval_floor")]
             else verdict 1 tg nontriv [VB (tag "interval-larger-than-remaining")]
-          else if (st =? stored_expiry c) && agrees c true os then verdict 0 tg nontriv []
+          else if (st =? stored_expiry c) && agrees sub5 c true os then verdict 0 tg nontriv []
           else verdict 2 tg nontriv []
-      | _, _, _, _, _ => bad_case
+      | _, _, _, _, _, _ => bad_case
       end
   | _ => bad_case
   end.
